@@ -40,6 +40,15 @@ def one_configuration(args):
     width, tier, seed = args
     import numpy as np
     from npstructures.raggedshape import ViewBase
+    if width == "switch":
+        # the property's own scenario: the width is SWITCHED inside a running process. Work under 64 bit first (fills whatever the library caches),
+        # then switch and run every family with freshly built objects; results are compared with the pure 64-bit process
+        from harness import c01
+        c01.run_impl_only(Collect(), tier, random.Random(seed)); fam_ra2.LIGHT[0] = True
+        try: fam_ra2.run_c08(Collect(), tier, random.Random(seed))
+        finally: fam_ra2.LIGHT[0] = False
+        ViewBase.set_dtype(np.int32)
+        return None, None, None, families(tier, seed)
     if width == 32:
         os.environ["VERIF_IDX32"] = "1"; ViewBase.set_dtype(np.int32)
     items, lines, impl = c02.collect(tier, random.Random(seed))
@@ -50,8 +59,8 @@ def run(R, tier, rng):
     import sys, concurrent.futures
     assert sys.byteorder == "little"
     seed = rng.random()
-    with concurrent.futures.ProcessPoolExecutor(2) as ex:
-        (items, lines, impl64, fam64), (items32, lines32, impl32, fam32) = list(ex.map(one_configuration, [(64, tier, seed), (32, tier, seed)]))
+    with concurrent.futures.ProcessPoolExecutor(3) as ex:
+        (items, lines, impl64, fam64), (items32, lines32, impl32, fam32), (_, _, _, famsw) = list(ex.map(one_configuration, [(64, tier, seed), (32, tier, seed), ("switch", tier, seed)]))
     assert lines == lines32
     for (Rw, idx), line, i64, i32 in zip(items, lines, impl64, impl32):
         R.record(line, i32, i64, i64, len(Rw) >= 2 and idx is not Ellipsis, c02.kind_of(idx), py="RaggedArray(%s)[%r] under ViewBase.set_dtype(np.int32) vs np.int64" % (Rw, idx))
@@ -59,6 +68,10 @@ def run(R, tier, rng):
         if case not in fam32:
             R.violation(case, "case missing under the 32-bit configuration"); continue
         R.record(case, fam32[case][0], i64, i64, nt, "w32/" + kind.split("/")[0], py=(py or case) + "   [ViewBase.set_dtype(np.int32) vs np.int64]")
+    for case, (i64, nt, kind, py) in fam64.items():
+        if case not in famsw:
+            R.violation(case, "case missing after switching the width inside the process"); continue
+        R.record(case + " [switched in-process]", famsw[case][0], i64, i64, nt, "switch/" + kind.split("/")[0], py=(py or case) + "   [64-bit work first, then ViewBase.set_dtype(np.int32) in the same process, vs a 64-bit process]")
     R.notes["cases_per_configuration"] = len(lines) + len(fam64)
 
 
